@@ -242,8 +242,12 @@ func (w *rw) dump() string {
 	sort.Strings(keys)
 	for _, k := range keys {
 		f := s.cache[k]
-		fmt.Fprintf(&b, "C %s st%d h=%s prev=%s ren=%s logged=%s age=%s nf=%v w=%v nerr=%d\n", f.name, f.state, f.hash, f.prev, f.renamed,
-			bucket(now, f.logged), bucket(now, f.time), f.nextFinal, f.wait != nil, f.nErr)
+		scan := "-" // how far back the search for the predecessor's log record has got (whole days)
+		if !f.prevScanBeg.IsZero() {
+			scan = fmt.Sprint(int(now.Sub(f.prevScanBeg).Hours() / 24))
+		}
+		fmt.Fprintf(&b, "C %s st%d h=%s prev=%s ren=%s logged=%s age=%s nf=%v w=%v nerr=%d scan=%s\n", f.name, f.state, f.hash, f.prev, f.renamed,
+			bucket(now, f.logged), bucket(now, f.time), f.nextFinal, f.wait != nil, f.nErr, scan)
 	}
 	fmt.Fprintf(&b, "cacheTime=%s batches=%d pipe=%d\n", bucket(now, s.cacheTime), len(s.cacheTimes), s.nPipe)
 	s.cacheLock.RUnlock()
